@@ -147,13 +147,21 @@ def translate_source():
     h.update(open(os.path.join(ROOT, "tools/cxxpolyp2coq.py"), "rb").read())
     h.update(open(os.path.join(ROOT, "tools/cxxexprbool2coq.py"), "rb").read())
     h.update(open(os.path.join(ROOT, "tools/cxxhwt2coq.py"), "rb").read())
+    h.update(open(os.path.join(ROOT, "tools/cxxtext2coq.py"), "rb").read())
     for f in ("lib/prng/randombytes.cpp", "lib/prng/fastrandombytes.cpp", "include/nfl/prng/randombytes.h"):
         if os.path.exists(os.path.join(REPO, f)): h.update(open(os.path.join(REPO, f), "rb").read())
     tag = "(* source-hash %s *)" % h.hexdigest()
-    dst = os.path.join(COQ, "gen/Gen.v"); dstv = os.path.join(COQ, "gen/GenVec.v"); dstl = os.path.join(COQ, "gen/GenLoop.v"); dstg = os.path.join(COQ, "gen/GenGmp.v"); dsto = os.path.join(COQ, "gen/GenOs.v"); dstp = os.path.join(COQ, "gen/GenPerm.v"); dstpp = os.path.join(COQ, "gen/GenPolyP.v"); dsteb = os.path.join(COQ, "gen/GenExprBool.v"); dsthw = os.path.join(COQ, "gen/GenHwt.v")
+    dst = os.path.join(COQ, "gen/Gen.v"); dstv = os.path.join(COQ, "gen/GenVec.v"); dstl = os.path.join(COQ, "gen/GenLoop.v"); dstg = os.path.join(COQ, "gen/GenGmp.v"); dsto = os.path.join(COQ, "gen/GenOs.v"); dstp = os.path.join(COQ, "gen/GenPerm.v"); dstpp = os.path.join(COQ, "gen/GenPolyP.v"); dsteb = os.path.join(COQ, "gen/GenExprBool.v"); dsthw = os.path.join(COQ, "gen/GenHwt.v"); dsttx = os.path.join(COQ, "gen/GenText.v")
     with Lock("translate_source"):
-        if all(os.path.exists(d) and tag in open(d).read(200) for d in (dst, dstv, dstl, dstg, dsto, dstp, dstpp, dsteb, dsthw)):
+        if all(os.path.exists(d) and tag in open(d).read(200) for d in (dst, dstv, dstl, dstg, dsto, dstp, dstpp, dsteb, dsthw, dsttx)):
             return True, "cached"
+        # the textual form (core.hpp)
+        tmptx = dsttx + ".tmp"
+        rctx, outtx = sh([sys.executable, os.path.join(ROOT, "tools/cxxtext2coq.py"), REPO, tmptx], timeout=900)
+        if rctx != 0 or not os.path.exists(tmptx):
+            open(dsttx, "w").write(tag + "\n(* translation failed: %s *)\n" % outtx[-500:].replace("*)", "* )"))
+        else:
+            open(dsttx, "w").write(tag + "\n" + open(tmptx).read()); os.remove(tmptx)
         # the fixed-Hamming-weight sampler (core.hpp)
         tmphw = dsthw + ".tmp"
         rchw, outhw = sh([sys.executable, os.path.join(ROOT, "tools/cxxhwt2coq.py"), REPO, tmphw], timeout=900)
@@ -256,9 +264,9 @@ def coq_eval(name, header, terms, timeout=600):
 
 # ---------------------------------------------------------------- prove
 def coq_makefile():
-    if not all(os.path.exists(os.path.join(COQ, g)) for g in ("gen/Gen.v", "gen/GenVec.v", "gen/GenLoop.v", "gen/GenGmp.v", "gen/GenOs.v", "gen/GenPerm.v", "gen/GenPolyP.v", "gen/GenExprBool.v", "gen/GenHwt.v")):
+    if not all(os.path.exists(os.path.join(COQ, g)) for g in ("gen/Gen.v", "gen/GenVec.v", "gen/GenLoop.v", "gen/GenGmp.v", "gen/GenOs.v", "gen/GenPerm.v", "gen/GenPolyP.v", "gen/GenExprBool.v", "gen/GenHwt.v", "gen/GenText.v")):
         translate_source()
-    vs = sorted(f for f in os.listdir(COQ) if f.endswith(".v") and f != "Extract.v") + ["gen/Params.v", "gen/Gen.v", "gen/GenVec.v", "gen/GenLoop.v", "gen/GenGmp.v", "gen/GenOs.v", "gen/GenPerm.v", "gen/GenPolyP.v", "gen/GenExprBool.v", "gen/GenHwt.v"]
+    vs = sorted(f for f in os.listdir(COQ) if f.endswith(".v") and f != "Extract.v") + ["gen/Params.v", "gen/Gen.v", "gen/GenVec.v", "gen/GenLoop.v", "gen/GenGmp.v", "gen/GenOs.v", "gen/GenPerm.v", "gen/GenPolyP.v", "gen/GenExprBool.v", "gen/GenHwt.v", "gen/GenText.v"]
     txt = "-Q . NTT\n" + "\n".join(vs) + "\n"
     p = os.path.join(COQ, "_CoqProject")
     if not os.path.exists(p) or open(p).read() != txt or not os.path.exists(os.path.join(COQ, "Makefile")):
